@@ -50,6 +50,7 @@ static void *counter_thread(void *a)
 	targ *t = a;
 	my_tid = t->tid;
 	uint64_t x = 88172645463325252ull ^ ((uint64_t)t->tid << 32);
+	json_object *myarr = json_object_new_array(), *myobj = json_object_new_object();
 	pthread_barrier_wait(&bar);
 	for (int i = 0; i < M; i++)
 	{
@@ -61,9 +62,34 @@ static void *counter_thread(void *a)
 		t->gets++;
 		if ((x >> 20) & 1)
 			sched_yield();
-		json_object_put(n); /* never the last reference: the main thread holds one */
+		/* the thread's reference is released through one of the doors that release references: json_object_put itself,
+		 * or a container of the thread's own that was given the reference and drops it again (element deleted or
+		 * overwritten, member deleted or replaced).  Never the last reference: the main thread holds one */
+		switch ((x >> 24) % 6)
+		{
+		case 0:
+			json_object_array_add(myarr, n);
+			json_object_array_del_idx(myarr, 0, 1);
+			break;
+		case 1:
+			json_object_array_put_idx(myarr, 0, n);
+			json_object_array_put_idx(myarr, 0, NULL);
+			json_object_array_del_idx(myarr, 0, 1);
+			break;
+		case 2:
+			json_object_object_add(myobj, "k", n);
+			json_object_object_del(myobj, "k");
+			break;
+		case 3:
+			json_object_object_add(myobj, "r", n);
+			json_object_object_add(myobj, "r", NULL);
+			break;
+		default: json_object_put(n); break;
+		}
 		t->puts++;
 	}
+	json_object_put(myarr);
+	json_object_put(myobj);
 	return NULL;
 }
 static int run_counter(void)
@@ -74,6 +100,10 @@ static int run_counter(void)
 		shared[k] = k & 1 ? json_object_new_object() : json_object_new_string("shared");
 		json_object_set_userdata(shared[k], (void *)(intptr_t)k, on_destroy);
 	}
+	/* (the hash seed is fixed before the threads exist: this run is about the counts; the first-use race has its own run) */
+	json_object *warm = json_object_new_object();
+	json_object_object_add(warm, "w", NULL);
+	json_object_put(warm);
 	pthread_t th[64];
 	targ ta[64];
 	pthread_barrier_init(&bar, NULL, (unsigned)T);
